@@ -759,7 +759,8 @@ func replyOfflineTopicGetSub(sess *Session, msg *ClientComMessage) {
 		if (ssub.ModeGiven & ssub.ModeWant).IsReader() && (ssub.ModeWant & ssub.ModeGiven).IsJoiner() {
 			sub.DelId = ssub.DelId
 			sub.ReadSeqId = ssub.ReadSeqId
-			sub.RecvSeqId = ssub.RecvSeqId
+			// A read note moves only the stored read mark: received is never behind read.
+			sub.RecvSeqId = max(ssub.RecvSeqId, ssub.ReadSeqId)
 		}
 	} else {
 		sub.DeletedAt = ssub.DeletedAt
